@@ -82,6 +82,8 @@ structure MSt where
   /-- invocation counters of the scripted listener reactions: one script for the whole scenario,
   whichever transform a listener is called from -/
   calls : Dict (Obj × String) Nat := []
+  /-- the objects the program still holds (one program, whichever transform they listen to) -/
+  held : List Obj := []
   out : List String := []
 
 def parseField : String → Option Field
@@ -110,7 +112,7 @@ def stepLine (U : Universe) (held : List Obj) (m : MSt) (toks : List String) : O
       match m.ts[i]? with
       | none => none
       | some t =>
-        let t := { t with d := { t.d with hints := m.hints, calls := m.calls, log := [] } }
+        let t := { t with d := { t.d with hints := m.hints, calls := m.calls, held := m.held, log := [] } }
         let r : Option (TSt × List String) :=
           match rest with
           | ["set", f, v] => (parseField f).map fun f =>
@@ -121,7 +123,7 @@ def stepLine (U : Universe) (held : List Obj) (m : MSt) (toks : List String) : O
               let (d, o) := execOp U defaultFuel t.d op
               ({ t with d := d }, (d.log.reverse.map showEntry) ++ [s!"res {showOutcome o}"])
         r.map fun (t', lines) =>
-          { ts := m.ts.set i t', hints := t'.d.hints, calls := t'.d.calls, out := m.out ++ lines.map (s!"t{i} " ++ ·) }
+          { ts := m.ts.set i t', hints := t'.d.hints, calls := t'.d.calls, held := t'.d.held, out := m.out ++ lines.map (s!"t{i} " ++ ·) }
   | _ => none
 
 def runScenario (lines : List String) : List String :=
@@ -138,7 +140,7 @@ def runScenario (lines : List String) : List String :=
     | l :: ls => match stepLine U p.objClass.keys m (tokens l) with
       | some m' => go m' ls
       | none => none
-  match go { hints := p.hints } body with
+  match go { hints := p.hints, held := p.objClass.keys } body with
   | some m => m.out
   | none => ["bad-op"]
 
